@@ -264,6 +264,20 @@ fn mutants(problem: &PProblem, solution: &Value) -> Vec<Mutant> {
                 out.push(mk("broken-relation", &["C01:relation"], format!("job {first} pinned to unused vehicle {other}"), &p, solution.clone()));
             }
         }
+        // the same with a vehicle which DOES drive a tour: every other tour of the solution (sibling ids of one type included)
+        if let (Some(first), true) = (ids.first(), problem.relations.is_empty()) {
+            for (tj, other_tour) in tours.iter().enumerate() {
+                let other = other_tour["vehicleId"].as_str().unwrap_or("");
+                if tj == ti || other == this_vehicle || other.is_empty() {
+                    continue;
+                }
+                for kind in ["any", "sequence"] {
+                    let mut p = problem.clone();
+                    p.relations = vec![PRelation { kind: kind.into(), jobs: vec![first.clone()], vehicle_id: other.to_string(), shift_index: other_tour["shiftIndex"].as_u64().map(|x| x as usize) }];
+                    out.push(mk("broken-relation", &["C01:relation"], format!("{kind} relation pins job {first} of '{this_vehicle}' to the used vehicle {other}"), &p, solution.clone()));
+                }
+            }
+        }
         // strict relation over two adjacent jobs in the WRONG order (problem side)
         if ids.len() >= 2 && problem.relations.is_empty() && ids[0] != ids[1] {
             let mut p = problem.clone();
